@@ -48,6 +48,7 @@ class Recorder:
         self.explored_seen = bool(sampler.explored)
         self.full = False          # full state strings (debugging / replay) or compact fingerprints
         self.cur_rounds = None
+        self.drawn = {}            # id(bound object) -> number of rows its sample() returned to sample_shell (independent count)
         self._install()
 
     # ---- ids
@@ -100,6 +101,7 @@ class Recorder:
                 res = orig_sample_shell(index, shell_t)
             finally:
                 self_.bounds[index] = real
+            rec.drawn[id(real)] = rec.drawn.get(id(real), 0) + sum(len(x) for x in log)
             points = res[0]
             idx_t = list(map(int, res[2])) if len(res) > 2 else []
             rounds = []
